@@ -125,3 +125,38 @@ def serveHTTPGated (adm : Admission) (cfg : Config) (env : Env) (tbl : Table) (r
   | _, _ => { http := serveHTTP cfg env tbl r }
 
 end Juno.C11
+
+/-! ## One POST at the gate from arrival to the return of `ServeHTTP` (round 6) -/
+
+namespace Juno.C11
+
+/-- how `HTTP.ServeHTTP` is left by a POST the gate admitted -/
+inductive PostExit where
+  /-- `resp != nil`: the answer is written -/
+  | answered
+  /-- `resp == nil` (only notifications): nothing is written -/
+  | silent
+  /-- `HandleReader` returned an error: 500 -/
+  | goError
+  /-- a panic unwinds `ServeHTTP` (net/http recovers it and drops the connection) -/
+  | panicked
+  deriving Repr, DecidableEq
+
+/-- The gate operations of one POST that is alone at the gate (it has left before the next request arrives).
+`live = false`: the request context is already done when `Acquire` is called (`WithRequestTimeout` expired, client
+gone) — `Acquire` returns `ctx.Err()` and nothing is held. Otherwise `Acquire`, and — `defer h.gate.Release()`
+right after the successful `Acquire` — exactly one `Release` on EVERY way out of `ServeHTTP`: answer written,
+nothing to write, Go error, panic. -/
+def postGateOps (live : Bool) (_exit : PostExit) : List Gate.Op :=
+  if live then [.acquire false, .release] else [.acquire true]
+
+/-- the gate after a sequence of such POSTs, with the outcome of every `Acquire` and the three public counters
+after every POST -/
+def Gate.St.posts (s : Gate.St) : List (Bool × PostExit) → List (Gate.Outcome × Nat × Int × Nat)
+  | [] => []
+  | (live, e) :: r =>
+    let ops := postGateOps live e
+    let t := s.run ops
+    ((s.step (ops.headD .release)).2, t.sem, t.queued, t.rejected) :: t.posts r
+
+end Juno.C11
